@@ -58,6 +58,22 @@ fn main() {
     let Ok(text) = fs::read_to_string(&args[2]) else { std::process::exit(5) };
     let Some(vals) = parse_values(&text) else { std::process::exit(5) };
     std::panic::set_hook(Box::new(|_| {}));
+    if args.len() > 3 && args[3] == "ext" {
+        let Some((failed, assume_violated, underrun, leftover, panicked, covered)) = kani_ext::run_replay(&args[1], vals) else {
+            println!("{{\"found\":false}}");
+            std::process::exit(5)
+        };
+        let f: Vec<String> = failed.iter().map(|s| format!("\"{}\"", esc(s))).collect();
+        let c: Vec<String> = covered.iter().map(|s| format!("\"{}\"", esc(s))).collect();
+        println!(
+            "{{\"found\":true,\"failed\":[{}],\"assume_violated\":{},\"underrun\":{},\"leftover\":{},\"panicked\":{},\"covered\":[{}]}}",
+            f.join(","), assume_violated, underrun, leftover,
+            match &panicked { Some(p) => format!("\"{}\"", esc(p)), None => "null".to_string() }, c.join(",")
+        );
+        if assume_violated { std::process::exit(4); }
+        if !failed.is_empty() || panicked.is_some() { std::process::exit(0); }
+        std::process::exit(3);
+    }
     let o = opaque_ke::verif_kani::replay::run(&args[1], vals);
     let failed: Vec<String> = o.failed.iter().map(|s| format!("\"{}\"", esc(s))).collect();
     let covered: Vec<String> = o.covered.iter().map(|s| format!("\"{}\"", esc(s))).collect();
